@@ -47,7 +47,64 @@ def gen_common(seed, tier, index, profile_choices=('mixed', 'churn', 'objects', 
     return {'prop': ID, 'seed': seed, 'config': cfg, 'intents': intents}
 
 
+GDB_LANES = (12, 13, 14, 15)     # a quarter of the runs: the same histories arriving as libwayland closures under the GDB plugin
+
+
+def in_gdb_world():
+    import os
+    return os.environ.get('VERIF_WORLD') == 'gdb'
+
+
+def gen_gdb(seed, tier, pid):
+    from . import c15
+    rng = random.Random('%d/gen-gdb' % seed)
+    nslots = rng.choice([1, 2, 2, 3])
+    n = rng.randint(8, 80 if tier == 'quick' else 200)
+    intents = []
+    for s_ in range(nslots):
+        if rng.random() < 0.7:
+            intents.append(['act', s_, 'get_registry', 0, 0, rng.randrange(1 << 30), 0])
+    rng.shuffle(intents)
+    prof = L.KIND_PROFILES[rng.choice(['mixed', 'churn', 'objects', 'objects'])]
+    for _ in range(n):
+        th = rng.randint(1, 3) if rng.random() < 0.06 else 0
+        intents.append(['act', rng.randrange(nslots), L.weighted(rng, prof), rng.randrange(1 << 30), rng.randrange(1 << 30),
+                        rng.randrange(1 << 30), th])
+        if rng.random() < 0.5:
+            intents.append(['tick', L.gen_tick(rng)])
+    cfg = {'world': 'gdb', 'nslots': nslots, 'sides': [rng.choice(['client', 'server']) for _ in range(nslots)], 'synth': True,
+           'suppress': True}
+    return {'prop': pid, 'seed': seed, 'config': cfg, 'intents': intents}
+
+
+def observe_gdb(sc):
+    from .. import gdbworld
+    from . import c15, c18
+    sim = gdbworld.GdbSim(sc)
+    sim.run()
+    st = c15.pseudo_stream(sim)
+    names = {ci: W.letters(k, True) for k, ci in enumerate(sim.order)}
+    exc = sim.start_exception
+    for h in sim.hits:
+        if h['exception'] and not exc:
+            exc = h['exception']
+    items = [L.classify(s, p) for s, k, p in sim.rec.events if k == 'out']
+    return sim, st, names, items, exc
+
+
+def finish_gdb(sc, sim, st, V):
+    shape, reused = table_shape(st)
+    inter = ''.join(str(it.conn) for _, it in st.lines)
+    V.bump('gdb_world_sessions')
+    V.bump('messages', len(st.lines))
+    return {'violations': V.list, 'counters': V.counters, 'nt_keys': [repr(shape) + inter[:64]] if reused else [], 'inter_key': inter,
+            'states': [repr(s) for s in shape], 'digest': sim.rec.digest(), 'canon': sim.rec.digest(True), 'sim_us': sim.clock.now_us,
+            'evals': 1, 'sample': {'config': sc['config'], 'messages': len(st.lines)}}
+
+
 def generate(seed, tier, index):
+    if in_gdb_world():
+        return gen_gdb(seed, tier, ID)
     return gen_common(seed, tier, index)
 
 
@@ -121,6 +178,17 @@ def finish(sc, st, res, tr, V):
 
 
 def execute(sc):
+    if sc['config'].get('world') == 'gdb':
+        from . import c18
+        V = common.Viol()
+        sim, st, names, items, exc = observe_gdb(sc)
+        V.counters.update(sim.counters)
+        if exc:
+            V.add('C02/target', 'exception:' + c18.trigger_of(exc), exc[-1200:])
+        else:
+            oracles.check_attribution(st, sim.tracker, V, names=names, check_tokens_items=items)
+        probes(st, V)
+        return finish_gdb(sc, sim, st, V)
     st, res, tr = observe(sc)
     V = common.Viol()
     if res.exception is not None:
